@@ -15,7 +15,7 @@ func init() {
 		ID:      "C10",
 		Modules: []string{"v2"},
 		Explanation: "Static totality clauses for the v2 API: (R10.1) every first/last/constant-position index or slice expression in v2 and v2/assets (NonEmpty obligations) is discharged by a dominating length guard, by construction, or by an audited provenance rule; " +
-			"(R10.2) every explicit panic and every regexp.MustCompile reachable from Match/MatchFrom/Normalize/AddContent is audited (MustCompile only on constants); (R10.3) every cycle of the tokenizer's read loop passes through the reader call and the end-of-input branch leaves the loop. " +
+			"(R10.2) every explicit panic and every regexp.MustCompile reachable from Match/MatchFrom/Normalize/AddContent is audited (MustCompile only on constants); (R10.3) every cycle of the tokenizer's read loop passes through the reader call and the end-of-input branch leaves the loop; (R10.4) the quadratic word diff is never run with go-diff's deadline switched off. " +
 			"Decides these structural necessary conditions for all inputs; does not decide index arithmetic with non-constant indices nor termination of the numeric loops.",
 		Run: runC10,
 	})
@@ -97,6 +97,26 @@ func runC10(c *Ctx) {
 
 	// R10.3 loop progress of the tokenizer read loop
 	checkReadLoopProgress(c, p)
+
+	// R10.4 the quadratic diff runs under a deadline
+	nDiff := 0
+	for f := range reach {
+		if !core.InRepo(f) {
+			continue
+		}
+		for _, call := range core.CallsIn(f) {
+			n := core.StaticCalleeName(call.Common())
+			if !strings.HasPrefix(n, "(*"+core.DiffPkg+".DiffMatchPatch).DiffMain") {
+				continue
+			}
+			nDiff++
+			disabled, why := timeoutDisabled(f, call.Common().Args[0], call)
+			c.R.Check(!disabled, "R10.4", core.ShortFn(f)+": the diff of target against corpus text runs under go-diff's deadline", p.Pos(call.Pos()),
+				"DiffTimeout is not switched off at this call ("+why+")",
+				"DiffTimeout is set to a constant <= 0 before the call: go-diff's bisection is O(N*D) without a deadline, so a large dissimilar input at a low threshold makes Match run for minutes (effectively hang)")
+		}
+	}
+	c.R.RequireMin("R10.4", "DiffMain call sites reachable from the API", nDiff, 1)
 }
 
 func panicGuardedByReaderErr(pn *ssa.Panic) bool {
